@@ -9,5 +9,8 @@ open Femio.C16
 #print axioms C16_knn_refines
 #print axioms C16_knn_output
 #print axioms C16_hausdorff
+#print axioms C16_ub_needs_abs_counterexample
+#print axioms C16_hausdorff_positive
+#print axioms C16_hausdorff_directed_not_symmetric
 #print axioms C16_hop_graph
 #print axioms C16_hop_nodal_chain
